@@ -55,15 +55,15 @@ def CallArg (a : Frag) : Prop := Frag.CleanFor .par a ∧ Frag.noTop ',' a = tru
 
 instance (a : Frag) : Decidable (CallArg a) := by unfold CallArg; infer_instance
 
-theorem forRange_args (callee : Frag) (fs : List Frag) (n : Nat) (hc : Frag.CleanFor .par callee) (hne : fs ≠ [])
+theorem splitCall_args (callee : Frag) (fs : List Frag) (n : Nat) (hc : Frag.CleanFor .par callee) (hne : fs ≠ [])
     (hf : ∀ a ∈ fs, CallArg a) (hl : ∀ l, fs.getLast? = some l → l ≠ .nil) (hn : n ≠ 1) :
-    forRangeVars (callee.render ++ '(' :: ((Frag.join ',' fs).render ++ [')'])) n
+    splitCallArguments (callee.render ++ '(' :: ((Frag.join ',' fs).render ++ [')'])) n
       = if n = 2 then (match fs.map fun f => strip f.render with | [b, s] => .ok (b, s, ['1']) | _ => .error .ValueError)
         else (match fs.map fun f => strip f.render with | [b, s, st] => .ok (b, s, st) | _ => .error .ValueError) := by
   have hj : Frag.CleanFor .par (Frag.join ',' fs) := wf_join _ ',' comma_plain fs (fun a ha => (hf a ha).1)
   have hsep := breakSeparator_join ',' comma_plain fs hne (fun a ha => simple_of_cleanFor .par a (hf a ha).1)
     (fun a ha => (hf a ha).2) hl
-  simp only [forRangeVars, pluck_call callee _ hc hj, Except.bind, hn, if_false, hsep]
+  simp only [splitCallArguments, pluck_call callee _ hc hj, Except.bind, hn, if_false, hsep]
   rfl
 
 theorem throwParts_call (path : Str) (fs : List Frag) (hp : ∀ x ∈ path, x ≠ '(') (hne : fs ≠ [])
@@ -94,6 +94,24 @@ theorem dictComp_pair (kf vf : Frag) (hk : Frag.Simple kf) (hv : Frag.Simple vf)
     (by intro l hl; simp at hl; rw [← hl]; exact hvne)
   simp only [dictCompProjection, h2, hsep, Except.bind, List.map_cons, List.map_nil]
 
+
+theorem startsWith_append' (p r : Str) : Str.startsWith (p ++ r) p = true := startsWith_append p r
+
+theorem endsWith_snoc (s : Str) (c : Char) : Str.endsWith (s ++ [c]) [c] = true := by
+  simp [Str.endsWith, Str.startsWith]
+
+/-- `is_initializer_call('T(args)', 'T')` holds for every type text and argument fragment (strings without parentheses). -/
+theorem isInitializerCall_call (ty args : Frag) (ht : Frag.CleanFor .par ty) (ha : Frag.CleanFor .par args) :
+    isInitializerCall (ty.render ++ '(' :: (args.render ++ [')'])) ty.render = .ok true := by
+  have h1 : Str.startsWith (ty.render ++ '(' :: (args.render ++ [')'])) (ty.render ++ ['(']) = true := by
+    have := startsWith_append (ty.render ++ ['(']) (args.render ++ [')'])
+    simpa using this
+  have h2 : Str.endsWith (ty.render ++ '(' :: (args.render ++ [')'])) [')'] = true := by
+    have := endsWith_snoc (ty.render ++ '(' :: args.render) ')'
+    simpa using this
+  have h3 := breakLastBlock_prefix_group .par ty args [] ht ha
+  simp only [BK.open, BK.close] at h3
+  simp [isInitializerCall, h1, h2, h3, Except.bind]
 
 /-! ### the query API of `DecoratorHelper` / `DecoratorQuery` -/
 
